@@ -3,7 +3,7 @@
 set -u
 PATCH="$(readlink -f "$1")"; shift
 REPO="${VERIF_REPO:-/repo}"
-NAME=$NAME; [ "$NAME" = patch.diff ] && NAME=$(basename "$(dirname "$PATCH")")
+NAME=$(basename "$PATCH"); [ "$NAME" = patch.diff ] && NAME=$(basename "$(dirname "$PATCH")")
 S=$(mktemp -d "${TMPDIR:-/tmp}/sqlvar.XXXXXX")
 trap 'rm -rf "$S"' EXIT
 rsync -a --exclude .git "$REPO"/ "$S"/
